@@ -1175,6 +1175,122 @@ example :
     f.cause = some (.stopString [0x3c, 0x7c]) ∧ f.outText = [0x61, 0x62] ∧ wholeTokens f.gen f.outText.length = 1 ∧
     cacheLenRun false 0 [[0x3c, 0x7c]] 3 init evs = some 4 ∧ validUtf8 (scriptText evs) = true := by decide
 
+/-! ### 5c-6. stop strings of ARBITRARY bytes (non-empty; not necessarily valid UTF-8) -/
+
+/-- **A stop of any bytes ended the run** ⇒ reason stop, and the streamed text is the longest valid-UTF-8 prefix of the
+    generated text before that stop's first occurrence (a stop that begins inside a character leaves that character's
+    first bytes behind, which `flushPending` drops); on the repaired code that occurrence is the earliest of all stops. -/
+theorem stop_found_any (pinned : Bool) (limit : Int) (stops : List Bytes) (evs : List Ev) (hne : StopsNe stops)
+    (s : Bytes) :
+    let f := run pinned limit stops init evs
+    ValidPrefix f.genText → f.cause = some (.stopString s) →
+      f.done = some .stop ∧ s ∈ stops ∧
+      (∃ idx, indexOf s f.genText = some idx ∧ f.outText = trimValid (f.genText.take idx) ∧
+        (pinned = false → ∀ t ∈ stops, ∀ j, indexOf t f.genText = some j → idx ≤ j)) ∧
+      (∀ t ∈ stops, ¬ Occurs t f.gen.dropLast.flatten) := by
+  intro f hvp hc
+  have := run_mainG pinned hne limit evs hvp
+  unfold PostG at this
+  rw [hc] at this
+  exact ⟨this.1, this.2.1, this.2.2.2.1, this.2.2.2.2.1⟩
+
+/-- no stop of any bytes ended the run ⇒ none occurs in the generated text, and at EOS / limit everything generated
+    (minus a trailing incomplete character) is streamed -/
+theorem ends_at_eos_or_limit_any (pinned : Bool) (limit : Int) (stops : List Bytes) (evs : List Ev) (hne : StopsNe stops) :
+    let f := run pinned limit stops init evs
+    ValidPrefix f.genText → (∀ s, f.cause ≠ some (.stopString s)) →
+      (∀ t ∈ stops, ¬ Occurs t f.genText) ∧
+      ((f.cause = some .eos ∨ f.cause = some .limit) → f.outText = trimValid f.genText) ∧
+      (f.cause = none → f.outText ++ f.pending.flatten = f.genText) := by
+  intro f hvp hc
+  have := run_mainG pinned hne limit evs hvp
+  unfold PostG at this
+  cases hcause : f.cause with
+  | none =>
+    rw [hcause] at this
+    exact ⟨this.noOcc, by simp, fun _ => this.split.symm⟩
+  | some c =>
+    cases c with
+    | stopString s => exact absurd hcause (hc s)
+    | eos => rw [hcause] at this; exact ⟨this.2.2.1, fun _ => this.2.1, by simp⟩
+    | limit => rw [hcause] at this; exact ⟨this.2.2.1, fun _ => this.2.1, by simp⟩
+
+/-- **The property for stop lists of arbitrary non-empty byte strings** (repaired `FindStop`): the streamed text contains
+    no stop; if some stop occurs in the generated text the reason is stop and the streamed text is the valid part of the
+    text before the EARLIEST first occurrence of a stop; otherwise the run ends at EOS / limit with everything streamed or is
+    still running with nothing lost.  With `empty_stop_streams_nothing` (a list containing `""`) this covers every stop list. -/
+theorem c14_any_stops (limit : Int) (stops : List Bytes) (evs : List Ev) (hne : StopsNe stops)
+    (hscript : ValidPrefix (scriptText evs)) :
+    let f := run false limit stops init evs
+    (∀ t ∈ stops, ¬ Occurs t f.outText) ∧
+    ((∃ t ∈ stops, Occurs t f.genText) →
+      f.done = some .stop ∧ ∃ s ∈ stops, ∃ idx, indexOf s f.genText = some idx ∧
+        (∀ t ∈ stops, ∀ j, indexOf t f.genText = some j → idx ≤ j) ∧ f.outText = trimValid (f.genText.take idx)) ∧
+    ((∀ t ∈ stops, ¬ Occurs t f.genText) →
+      ((f.cause = some .eos ∨ f.cause = some .limit) ∧ f.outText = trimValid f.genText) ∨
+      (f.cause = none ∧ f.outText ++ f.pending.flatten = f.genText)) := by
+  intro f
+  have hvp : ValidPrefix f.genText := by
+    obtain ⟨y, hy⟩ := genText_prefix_script false limit stops evs
+    rw [← hy] at hscript; exact hscript.left
+  have hcases : (∃ s, f.cause = some (.stopString s)) ∨ (∀ s, f.cause ≠ some (.stopString s)) := by
+    by_cases h : ∃ s, f.cause = some (.stopString s)
+    · exact Or.inl h
+    · exact Or.inr (fun s hs => h ⟨s, hs⟩)
+  refine ⟨?_, ?_, ?_⟩
+  · intro t ht hocc
+    rcases hcases with ⟨s, hcs⟩ | hns
+    · obtain ⟨_, _, ⟨idx, hidx, hout, hmin⟩, _⟩ := stop_found_any false limit stops evs hne s hvp hcs
+      obtain ⟨y, hy⟩ := trimValid_prefix (f.genText.take idx)
+      have hocc' : Occurs t (f.genText.take idx) := by
+        rw [← hy, ← hout]; exact hocc.append_right y
+      obtain ⟨a, b, hab⟩ := hocc'
+      have hgen : f.genText = a ++ t ++ (b ++ f.genText.drop idx) := by
+        have h0 : f.genText = f.genText.take idx ++ f.genText.drop idx := (List.take_append_drop idx f.genText).symm
+        rw [hab, List.append_assoc] at h0
+        exact h0
+      have hOcc : Occurs t f.genText := ⟨a, _, hgen⟩
+      obtain ⟨j, hj⟩ := hOcc.indexOf
+      have hjle := (indexOf_spec t _ j hj).2 a _ hgen
+      have hij : idx ≤ j := hmin rfl t ht j hj
+      have hlen := congrArg List.length hab
+      rw [List.length_take] at hlen
+      simp only [List.length_append] at hlen
+      have htne : t.length ≠ 0 := fun h0 => hne t ht (List.eq_nil_of_length_eq_zero h0)
+      omega
+    · obtain ⟨hno, _, _⟩ := ends_at_eos_or_limit_any false limit stops evs hne hvp hns
+      apply hno t ht
+      obtain ⟨y, hy⟩ := (prefix_valid false limit stops evs hvp).1
+      rw [← hy]; exact hocc.append_right y
+  · intro ⟨t, ht, hocc⟩
+    rcases hcases with ⟨s, hcs⟩ | hns
+    · obtain ⟨hd, hmem, ⟨idx, hidx, hout, hmin⟩, _⟩ := stop_found_any false limit stops evs hne s hvp hcs
+      exact ⟨hd, s, hmem, idx, hidx, hmin rfl, hout⟩
+    · exact absurd hocc ((ends_at_eos_or_limit_any false limit stops evs hne hvp hns).1 t ht)
+  · intro hno
+    have hns : ∀ s, f.cause ≠ some (.stopString s) := by
+      intro s hcs
+      obtain ⟨_, hmem, ⟨idx, hidx, _, _⟩, _⟩ := stop_found_any false limit stops evs hne s hvp hcs
+      exact hno s hmem (occurs_of_indexOf hidx)
+    obtain ⟨_, htrim, hrun⟩ := ends_at_eos_or_limit_any false limit stops evs hne hvp hns
+    cases hcause : f.cause with
+    | none => exact Or.inr ⟨rfl, hrun hcause⟩
+    | some c =>
+      cases c with
+      | stopString s => exact absurd hcause (hns s)
+      | eos => exact Or.inl ⟨Or.inl rfl, htrim (Or.inl hcause)⟩
+      | limit => exact Or.inl ⟨Or.inr rfl, htrim (Or.inr hcause)⟩
+
+/-- non-vacuity: the stop `"\x82\xac"` (two continuation bytes: not valid UTF-8) occurs inside `€`: pieces `"a€"`, `"b"`:
+    the run ends with reason stop, the text before the stop is `"a\xe2"`, its valid part `"a"` is what is streamed -/
+example :
+    let stops : List Bytes := [[0x82, 0xac]]
+    let evs := [Ev.piece [0x61, 0xe2, 0x82, 0xac], Ev.piece [0x62], Ev.eos]
+    let f := run false 0 stops init evs
+    validUtf8 [0x82, 0xac] = false ∧ validUtf8 (scriptText evs) = true ∧
+    f.cause = some (.stopString [0x82, 0xac]) ∧ f.out = [[0x61]] ∧ indexOf [0x82, 0xac] f.genText = some 2 ∧
+    trimValid (f.genText.take 2) = [0x61] := by decide
+
 /-! ### 5d. one level up: the `completion` HTTP handler and the client -/
 
 /-- **What the client receives.**  For the handler's lines of any finished or cancelled run: the
